@@ -67,6 +67,19 @@ Definition dense_rec (a : dattr) (id : bytes) : BT2.rec := (BT2.jenkins (dattr_n
 Definition dense_recs (attrs : list dattr) : list BT2.rec :=
   fold_left BT2.insert_sorted (map (fun ai => dense_rec (fst ai) (snd ai)) (combine attrs (heap_ids 0 (map dattr_bytes attrs)))) [].
 
+(* the listing order: the same insertion on (attribute, heap id) pairs - position of the first entry whose name hash is >= the new
+   one (insertRecordSorted), written recursively.  dense_recs = the records of these pairs (Proofs/FileImageDense.v recs_of_pairs) *)
+Definition pair_hash (p : dattr * bytes) : N := BT2.jenkins (dattr_name (fst p)).
+Fixpoint ins_hash (l : list (dattr * bytes)) (x : dattr * bytes) : list (dattr * bytes) :=
+  match l with
+  | [] => [x]
+  | y :: t => if pair_hash x <=? pair_hash y then x :: y :: t else y :: ins_hash t x
+  end.
+Definition dense_pairs (attrs : list dattr) : list (dattr * bytes) :=
+  fold_left ins_hash (combine attrs (heap_ids 0 (map dattr_bytes attrs))) [].
+(* the attributes in the order of the leaf records = the order in which the reader lists them: ascending name hash *)
+Definition dense_order (attrs : list dattr) : list dattr := map fst (dense_pairs attrs).
+
 Section ImageDense.
 Variable name : bytes.            (* the link name, without the leading "/" *)
 Variables class size cbf : N.     (* the registry entry of the dataset's dtype *)
@@ -136,9 +149,12 @@ Definition leaf_block : bytes :=
   let b := BT2.encode_leaf final_bt2 in b ++ zeros (N.to_nat (BT2_NODE - blen b)).
 
 (* ------------------------------------------------------------------ the file *)
+(* the superblock as Close leaves it: the end-of-file address is behind the B-tree v2 header *)
+Definition final_sb_dense : superblock :=
+  {| sp_version := 2; sp_offsize := 8; sp_lensize := 8; sp_base := 0; sp_root := ROOT_ADDR; sp_superext := 0;
+     sp_rootbtree := BTREE_ADDR; sp_rootheap := HEAP_ADDR; sp_eof := eof_dense |}.
 Definition blocks_v2_dense : list bytes :=
-  [ enc_superblock {| sp_version := 2; sp_offsize := 8; sp_lensize := 8; sp_base := 0; sp_root := ROOT_ADDR; sp_superext := 0;
-                      sp_rootbtree := BTREE_ADDR; sp_rootheap := HEAP_ADDR; sp_eof := eof_dense |};
+  [ enc_superblock final_sb_dense;
     heap_image (final_heap name) HEAP_ADDR;
     snod_block data;
     bt_write_at final_btnode 8 GROUP_K;
